@@ -160,6 +160,18 @@ def featsOf (xs : List String) : Feats := fun s => xs.contains s
 
 structure St where
   schema : Schema := { types := [], query := "", mutation := none, subscription := none }
+  /-- Set by `(roots filtered)`: the library under test has fix 04 (a mutation / subscription root type
+      whose features are disabled is treated as absent). Transitional switch: the theorems about the
+      filtered roots are in ApiFu/C13R until the fix is on /repo's main. -/
+  rootsFiltered : Bool := false
+
+/-- The view the ties use: as `view`, with the root types filtered by features when the library has fix 04. -/
+def viewFor (filtered : Bool) (S : Schema) (F : Feats) : View :=
+  if filtered then
+    { view S F with
+      mutationType := S.mutation.filter (S.visible F)
+      subscriptionType := S.subscription.filter (S.visible F) }
+  else view S F
 
 /-- The (schema, features) a request is evaluated against: `full` = (S, F), `erased` = (erase S F, ⊤). -/
 def pick (S : Schema) (F : Feats) (which : String) : Schema × Feats :=
@@ -174,25 +186,26 @@ def handle (st : St) (line : String) : St × String :=
        "(accepted " ++ (if Accepted S then "true" else "false") ++ " " ++
          (if RootsUngated S then "rootsUngated" else "rootsGated") ++ ")")
     | none => (st, "bad-schema")
+  | some (.list [.atom "roots", .atom m]) => ({ st with rootsFiltered := m == "filtered" }, "ok")
   | some (.list [.atom "erase", fs]) =>
     match atoms fs with
     | some f => (st, toString (schemaSexp (erase st.schema (featsOf f))))
     | none => (st, "bad-op")
   | some (.list [.atom "view", fs]) =>
     match atoms fs with
-    | some f => (st, toString (viewSexp st.schema (view st.schema (featsOf f))))
+    | some f => (st, toString (viewSexp st.schema (viewFor st.rootsFiltered st.schema (featsOf f))))
     | none => (st, "bad-op")
   | some (.list [.atom "introspect", fs, .atom which, q]) =>
     match atoms fs, parseSels q with
     | some f, some sels =>
       let (S, F) := pick st.schema (featsOf f) which
-      (st, (introspect (view S F) sels).render)
+      (st, (introspect (viewFor st.rootsFiltered S F) sels).render)
     | _, _ => (st, "bad-op")
   | some (.list [.atom "walk", fs, .atom which, .atom root, q]) =>
     match atoms fs, parseSels q with
     | some f, some sels =>
       let (S, F) := pick st.schema (featsOf f) which
-      (st, toString (Sexp.list ((walk (view S F) (if root == "" then none else some root) sels).map eventSexp)))
+      (st, toString (Sexp.list ((walk (viewFor st.rootsFiltered S F) (if root == "" then none else some root) sels).map eventSexp)))
     | _, _ => (st, "bad-op")
   | _ => (st, "bad-op")
 
